@@ -92,6 +92,39 @@ def program_strategy(tier):
                      key, st.lists(gen.blob(8), min_size=3, max_size=10), st.booleans())
 
 
+def check_side_by_side(c):
+    """two (or three) networks generated side by side: round tables requested in a generated interleaving, ONE set of
+    key-independent M1/M2/M3 objects handed to every WhiteDES, all networks alive and used alternately"""
+    keys = c["keys"]
+    bK = [Bits(k, 64) for k in keys]
+    KT = [[None] * 16 for _ in keys]
+    nxt = [0] * len(keys)
+    for who in c["schedule"] + tuple(range(len(keys))) * 16:
+        who %= len(keys)
+        if nxt[who] < 16:
+            KT[who][nxt[who]] = guard(wb.table_rKT, nxt[who], bK[who])[1]
+            nxt[who] += 1
+    M1, M2, M3 = guard(wb.table_M1), guard(wb.table_M2)[0], guard(wb.table_M3)
+    nets = [guard(wb.WhiteDES, KT[i], M1, M2, M3) for i in range(len(keys))]
+    for blk in c["blocks"]:
+        for i, W in enumerate(nets):
+            got = guard(W.enc, blk)
+            exp = RD.enc(keys[i], blk)
+            if got != exp:
+                raise Violation("whitedes:side-by-side!=fips46-3", {"net": i, "block": blk, "ct": exp}, {"net": i, "block": blk, "ct": got})
+    for i, k in enumerate(keys):
+        if (bK[i].ival, bK[i].size) != (Bits(k, 64).ival, 64):
+            raise Violation("whitedes:side-by-side:key-vector-changed", None, None)
+
+
+def side_by_side_strategy(tier):
+    key = gen.pick((4, gen.blob(8)), (1, st.sampled_from(SPECIAL_KEYS)))
+    blocks = st.lists(gen.pick((3, gen.blob(8)), (1, st.sampled_from([bytes(8), b"\xff" * 8, b"\x80" + bytes(7), bytes(7) + b"\x01"]))),
+                      min_size=3, max_size=6)
+    return st.builds(lambda ks, sch, bl: {"keys": tuple(ks), "schedule": tuple(sch), "blocks": tuple(bl)},
+                     st.lists(key, min_size=2, max_size=3, unique=True), st.lists(gen.uint(0, 2), min_size=0, max_size=40), blocks)
+
+
 def evidence_extra(per_facet):
     return {"programs": sum(v["evaluations"] for v in per_facet.values()),
             "disagreements_checked": 0}
@@ -107,5 +140,10 @@ FACETS = [
           shards={"quick": 16, "thorough": 32}, suppress_too_slow=True,
           nontrivial=lambda c: len(set(c["key"])) > 1, classify=lambda c: ("special key" if c["key"] in SPECIAL_KEYS else "random key",),
           rule="random keys (1/5 special), 3..10 random/constant/single-bit blocks each"),
+    Facet("programs-side-by-side", check_side_by_side, strategy=side_by_side_strategy, budget={"quick": 32, "thorough": 600},
+          shards={"quick": 16, "thorough": 32}, suppress_too_slow=True,
+          nontrivial=lambda c: True, classify=lambda c: ("networks=%d" % len(c["keys"]), "interleaved generation" if len(set(c["schedule"])) > 1 else "one after the other"),
+          rule="2..3 keys: round tables generated in a random interleaving, ONE M1/M2/M3 object set shared by all WhiteDES objects, networks used "
+               "alternately on 3..6 blocks, each against FIPS 46-3; the callers' key vectors unchanged"),
 ]
 WEIGHT = {"programs-standard-blocks": 5}
